@@ -527,8 +527,11 @@ def main():
     evidence = {'property_id': pid, 'tier': tier, 'seed': seed, 'level': 'proof', 'coverage': cov,
                 'assumptions': spec.get('assumptions', []), 'wall_s': round(time.time() - t0, 2),
                 'violations': violations}
-    os.makedirs(os.path.join(VERIF, 'evidence'), exist_ok=True)
-    with open(os.path.join(VERIF, 'evidence', pid + '.json'), 'w') as f:
+    # evidence describes /repo itself; a run against a scratch copy (N2K_REPO, used to evaluate seeded changes) keeps its
+    # evidence apart so that it can never be mistaken for a statement about /repo
+    evdir = os.path.join(VERIF, 'evidence') if os.path.realpath(REPO) == '/repo' else os.path.join(VERIF, 'build', 'evidence_scratch')
+    os.makedirs(evdir, exist_ok=True)
+    with open(os.path.join(evdir, pid + '.json'), 'w') as f:
         json.dump(evidence, f, indent=1)
     log('%s %s: %d/%d obligations discharged, %d ops on the real code, %d lines compared with the model, '
         '%d disagreement(s), %d unlisted oracle failure(s), %d known finding(s), %.1fs' % (
